@@ -405,13 +405,15 @@ Qed.
 Lemma hs_reopen : forall s st mm, HS (reopen s st mm).
 Proof. intros s st mm. unfold reopen. eapply hs_loc; [apply loc_load_fsm|]. split; reflexivity. Qed.
 
-Lemma hs_open_new : forall v bp hl bl st, fst (open_new v bp hl bl st) = 0 -> HS (snd (open_new v bp hl bl st)).
+Lemma hs_open_new_max : forall v bp hl bl mx st, fst (open_new_max v bp hl bl mx st) = 0 -> HS (snd (open_new_max v bp hl bl mx st)).
 Proof.
-  intros v bp hl bl st. unfold open_new.
+  intros v bp hl bl mx st. unfold open_new_max.
   destruct ((if bp =? 0 then FSM_DEFAULT_BPOW else bp) >? FSM_MAX_BLOCK_POW); [intros H; vm_compute in H; discriminate H|].
   destruct (pow2 (if bp =? 0 then FSM_DEFAULT_BPOW else bp) >? FSM_AUNIT); [intros H; vm_compute in H; discriminate H|].
   apply init_lw_ok_hs.
 Qed.
+Lemma hs_open_new : forall v bp hl bl st, fst (open_new v bp hl bl st) = 0 -> HS (snd (open_new v bp hl bl st)).
+Proof. intros v bp hl bl st. apply hs_open_new_max. Qed.
 
 (* ---------------------------------------------------------------- every operation, every history *)
 Theorem hs_step : forall s o, HS s -> (forall tr, o = OClear tr -> fst (clear s tr) = 0) -> HS (state_of (step s o)).
@@ -525,27 +527,29 @@ Qed.
 
 (* every variant of the code, strict or not, aligned or not: a release whose range ends behind the last block the bitmap
    describes is refused and the state (bitmap, tree, cache, sizes) is exactly as before *)
-Theorem release_beyond_end_refused : forall s addr len, nbits s < shr addr (bpow s) + shr len (bpow s) ->
+Theorem release_beyond_end_refused : forall s addr len, nbits s < blk_of s addr + blk_of s len ->
   fst (deallocate s addr len) <> 0 /\ snd (deallocate s addr len) = s.
 Proof.
   intros s addr len H. unfold deallocate.
   destruct (negb (Z.land addr (blkmask s) =? 0)); [split; [vm_compute; discriminate|reflexivity]|].
-  destruct (fx_short (vr s) && (shr len (bpow s) <? 1)); [split; [vm_compute; discriminate|reflexivity]|].
-  destruct (touches_meta s (shr addr (bpow s)) (shr len (bpow s))); [split; [vm_compute; discriminate|reflexivity]|].
+  destruct (fx_short (vr s) && (blk_of s len <? 1)); [split; [vm_compute; discriminate|reflexivity]|].
+  destruct (touches_meta s (blk_of s addr) (blk_of s len)); [split; [vm_compute; discriminate|reflexivity]|].
   rewrite (blk_deallocate_out_of_range _ _ _ H). split; [vm_compute; discriminate|reflexivity].
 Qed.
 
 (* the shrinking branch of _fsm_reallocate releases [addr + nlen, addr + olen): same guard *)
 Theorem shrink_beyond_end_refused : forall s nlen addr olen opts ovr,
   Z.land addr (blkmask s) = 0 -> Z.land olen (blkmask s) = 0 ->
-  shr (IW_ROUNDUP nlen (pow2 (bpow s))) (bpow s) < shr olen (bpow s) ->
-  nbits s < shr addr (bpow s) + shr olen (bpow s) ->
+  shr (IW_ROUNDUP nlen (pow2 (bpow s))) (bpow s) < blk_of s olen ->
+  nbits s < blk_of s addr + blk_of s olen ->
   let '(rc, s', a, l) := reallocate s nlen addr olen opts ovr in rc <> 0 /\ s' = s /\ a = addr /\ l = olen.
 Proof.
   intros s nlen addr olen opts ovr Ha Ho Hlt H. unfold reallocate. rewrite Ha, Ho. simpl negb. simpl orb. cbv iota.
-  set (nb := shr (IW_ROUNDUP nlen (pow2 (bpow s))) (bpow s)) in *. set (ob := shr olen (bpow s)) in *.
-  set (ab := shr addr (bpow s)) in *.
+  set (nb := shr (IW_ROUNDUP nlen (pow2 (bpow s))) (bpow s)) in *. set (ob := blk_of s olen) in *.
+  set (ab := blk_of s addr) in *.
   replace (nb =? ob) with false by (symmetry; apply Z.eqb_neq; lia).
+  destruct (fx_realloc (vr s) && (ob <? 1)); [split; [vm_compute; discriminate|repeat split]|].
+  destruct (fx_realloc (vr s) && touches_meta s ab ob); [split; [vm_compute; discriminate|repeat split]|].
   replace (nb <? ob) with true by (symmetry; apply Z.ltb_lt; lia).
   rewrite (blk_deallocate_out_of_range s (ab + nb) (ob - nb)) by lia.
   replace (IWFS_ERROR_FSM_SEGMENTATION =? 0) with false by reflexivity.
@@ -553,12 +557,12 @@ Proof.
 Qed.
 
 (* status queries get no slack either *)
-Theorem status_beyond_end_refused : forall s addr len al, nbits s < shr addr (bpow s) + shr len (bpow s) ->
+Theorem status_beyond_end_refused : forall s addr len al, nbits s < blk_of s addr + blk_of s len ->
   check_allocation_status s addr len al <> 0.
 Proof.
   intros s addr len al H. unfold check_allocation_status.
   destruct (negb (Z.land addr (blkmask s) =? 0) || negb (Z.land len (blkmask s) =? 0)); [vm_compute; discriminate|].
-  destruct (touches_meta s (shr addr (bpow s)) (shr len (bpow s))); [vm_compute; discriminate|].
-  destruct (set_bit_status_guard s (shr addr (bpow s)) (shr len (bpow s)) (negb al) true) as [_ G].
+  destruct (touches_meta s (blk_of s addr) (blk_of s len)); [vm_compute; discriminate|].
+  destruct (set_bit_status_guard s (blk_of s addr) (blk_of s len) (negb al) true) as [_ G].
   rewrite (G H true). vm_compute. discriminate.
 Qed.
